@@ -37,7 +37,7 @@ WRITERS = {"SetOut": "Out1", "Set1": "Out1", "Valve": "Out2", "On1": "Out1", "Op
 ALPHABET = [("user", "Start"), ("user", "Pause"), ("user", "Unpause"), ("user", "Stop"), ("user", "Restart"),
             ("set1",), ("valve",), ("bogus",), ("tick", 1), ("tick", 3)]
 # second alphabet: the user commands outputs directly (UOD commands without arguments), also while paused
-ALPHABET_B = [("user", "Pause"), ("user", "Unpause"), ("user", "On1"), ("user", "OpenV"), ("set1",), ("tick", 1), ("tick", 3)]
+ALPHABET_B = [("user", "Pause"), ("user", "Unpause"), ("user", "On1"), ("user", "OpenV"), ("user", "Fail"), ("set1",), ("tick", 1), ("tick", 3)]
 ALPHABETS = [ALPHABET, ALPHABET_B]
 METHODS = [
     "Wait: 100s",
@@ -66,6 +66,8 @@ SEEDS = [
     [("user", "Start"), ("tick", 3)],
     # alphabet B only: ... and the run has just been paused by the user
     [("user", "Start"), ("tick", 3), ("user", "Pause"), ("tick", 1)],
+    # alphabet B only: a run with driven outputs has just been paused by the user
+    [("user", "Start"), ("set1",), ("valve",), ("tick", 3), ("tick", 2), ("user", "Pause"), ("tick", 1)],
 ]
 
 
@@ -189,6 +191,11 @@ class Monitor:
                 self.history.append((self.pause["run_no"], [self.shadow] + self.alt, "unpaused"))
                 self.shadow = None
             elif same_run and post["paused"]:
+                if any(r["kind"] == "user" and r["name"] == "Unpause" for r in self.pending):
+                    # an Unpause was requested for this tick and the run is paused at its end all the same: the pause may have
+                    # ended and a new one (error pause, another Pause) begun inside the tick; a register a command wrote in this
+                    # tick may belong to either side of that boundary (the statement does not order events inside one tick)
+                    self.pause["ambiguous"] |= set(writers)
                 if self.pause_events.get(ob["n"], 0) >= 1:
                     # another Pause executed during the paused period: "the most recent Pause" may mean this one
                     self.alt.append(dict(self.prev_out))
@@ -332,7 +339,7 @@ def explore(item):
 DEEPER = [(0, 0), (3, 0)]          # (method, seed) explored one level deeper in the thorough tier
 # quick tier: every seed on the plain method, the other methods on the fresh engine and on the seeds they add something to
 QUICK_COMBOS = [(0, 0), (0, 1), (0, 2), (0, 3), (0, 4), (1, 0), (1, 4), (2, 0), (2, 2), (2, 3), (3, 0), (3, 4), (4, 5)]
-ONLY_WITH = {5: (4,), 6: (), 7: ()}            # seed -> methods it makes sense for
+ONLY_WITH = {5: (4,), 6: (), 7: (), 8: ()}            # seed -> methods it makes sense for
 
 
 
@@ -356,7 +363,7 @@ def run(ctx):
     # from a running run whose outputs are at their safe values
     nb = len(ALPHABET_B)
     db = depth + 1
-    for wi in (0, 4, 6, 7):
+    for wi in (0, 4, 6, 7, 8):
         depths[f"0,{wi},B"] = db
         for a in range(nb):
             for b in range(nb):
